@@ -240,7 +240,7 @@ def check(run):
                 ok, bad = path.after_call_reaches(f, call, lambda i: i.op in ("call", "invoke") and i.get("callee") == "abort")
                 sk = site_key(f)
                 kinds_seen.add(sk)
-                run.instance(r2, "%s call in %s" % (kind, re.sub(r"w_\w+_\d+::key", "K", f.dname)[:150]), call.where(), ok=ok)
+                run.instance(r2, "%s call in %s" % (kind, re.sub(r"w_\w+_\d+::key", "K", f.dname)), call.where(), ok=ok)
                 if not ok:
                     run.violation(r2, "%s|%s" % (sk, kind),
                                   "a path from the %s call in %s returns (at line %s) without calling abort()" % (kind, f.dname[:160], bad.line), call.where())
@@ -264,7 +264,7 @@ def check(run):
                                 bad.append((f, i, "catch clause"))
                             if i.op in ("call", "invoke") and (i.get("callee") or "") == "__clang_call_terminate":
                                 bad.append((f, i, "noexcept boundary (std::terminate)"))
-                run.instance(r3, "call path of %s" % ent.dname[:120], ent.where(), ok=not bad, detail={"functions": len(fs)})
+                run.instance(r3, "call path of %s" % ent.dname, ent.where(), ok=not bad, detail={"functions": len(fs)})
                 for f, i, why in bad:
                     run.violation(r3, "%s|%s" % (site_key(f), why), "%s in %s on the path from the method call to the error handler: a throwing handler's exception would not reach the caller" % (why, f.dname[:160]), i.where())
     if run.tier == "thorough":
@@ -275,7 +275,7 @@ def check(run):
             for f, call, kind in handler_sites(rmod):
                 ok, bad = path.after_call_reaches(f, call, lambda i: i.op in ("call", "invoke") and i.get("callee") == "abort")
                 n += 1
-                run.instance(r2, "%s: %s call in %s" % (ru["file"], kind, f.dname[:120]), call.where(), ok=ok)
+                run.instance(r2, "%s: %s call in %s" % (ru["file"], kind, f.dname), call.where(), ok=ok)
                 if not ok:
                     run.violation(r2, "%s|%s" % (site_key(f), kind), "a path from the %s call in %s (unit %s) returns without calling abort()" % (kind, f.dname[:160], ru["file"]), call.where())
         run.units.append({"unit": "repository units (compile database)", "count": len(rus), "handler_call_sites": n})
